@@ -9,6 +9,7 @@ mod o_lists;
 mod o_unify;
 mod o_compare;
 mod o_listops;
+mod o_globals;
 
 use std::panic;
 
@@ -26,6 +27,8 @@ fn oracles() -> Vec<(&'static str, Enumerate, Check)> {
         ("c17_filter", o_listops::enum_filter, o_listops::check_filter),
         ("c17_terms", o_listops::enum_terms, o_listops::check_terms),
         ("c16_append", o_listops::enum_append, o_listops::check_append),
+        ("c22_make_query", o_globals::enum_make_query, o_globals::check_make_query),
+        ("c10_counter", o_globals::enum_counter, o_globals::check_counter),
         ("c06_keeps", o_unify::enum_keeps, o_unify::check_keeps),
     ]
 }
